@@ -21,13 +21,18 @@
 (* iff TLC reports the "invariant" NotDone violated.                                      *)
 EXTENDS CacheAuto, IOUtils
 
+\* LooseEnv: the environment (kernel, fsnotify) may hand the goroutine ANY event at any time.  A trace that the precise
+\* environment model rejects but this one accepts shows a gap in my model of inotify/fsnotify, not a fault of the cache:
+\* whatever events arrive, every snapshot of the cache still has to be what the actions of CacheAuto yield.
+CONSTANT LooseEnv
+
 Trace == ndJsonDeserialize(IOEnv.TRACE)
 VARIABLES l,     \* position in the trace
           pfs,   \* the file-system operation between its two log entries: [e, applied], or NoFs
           pend   \* goroutines that have received an event whose "recv" entry is still to come: the hook
                  \* runs after the receive, so the receive itself may be earlier than its log entry
 tvars == <<vars, l, pfs, pend>>
-NoFs == [e |-> [a |-> "none"], applied |-> TRUE]
+NoFs == [e |-> [a |-> "none"], applied |-> TRUE, half |-> FALSE]
 
 TEv == Trace[l]
 Is(e) == l <= Len(Trace) /\ TEv.ev = e /\ l' = l + 1
@@ -52,10 +57,17 @@ TraceInit ==
   /\ cdirs = SeqSet(Trace[1].dirs)
   /\ l = 2 /\ pend = {} /\ pfs = NoFs
 
-FsBegin == Is("fs") /\ pfs = NoFs /\ pfs' = [e |-> TEv, applied |-> FALSE] /\ UNCHANGED <<vars, pend>>
+FsBegin == Is("fs") /\ pfs = NoFs /\ pfs' = [e |-> TEv, applied |-> FALSE, half |-> FALSE] /\ UNCHANGED <<vars, pend>>
 FsEnd   == Is("fsdone") /\ pfs # NoFs /\ pfs.applied /\ pfs' = NoFs /\ UNCHANGED <<vars, pend>>
+\* open(O_CREAT) and write(2) are two system calls: the reader may come in between
+FsApplyHalf == /\ pfs # NoFs /\ ~pfs.applied /\ ~pfs.half /\ pfs.e.a = "createwrite"
+               /\ CreateFirst(pfs.e.d, pfs.e.n, pfs.e.c)
+               /\ pfs' = [pfs EXCEPT !.half = TRUE] /\ l' = l /\ UNCHANGED pend
+FsApplyRest == /\ pfs # NoFs /\ ~pfs.applied /\ pfs.half
+               /\ WriteSecond(pfs.e.d, pfs.e.n)
+               /\ pfs' = [pfs EXCEPT !.applied = TRUE] /\ l' = l /\ UNCHANGED pend
 FsApply ==
-  /\ pfs # NoFs /\ ~pfs.applied /\ pfs' = [pfs EXCEPT !.applied = TRUE] /\ l' = l /\ UNCHANGED pend
+  /\ pfs # NoFs /\ ~pfs.applied /\ ~pfs.half /\ pfs' = [pfs EXCEPT !.applied = TRUE] /\ l' = l /\ UNCHANGED pend
   /\ LET e == pfs.e IN
      CASE e.a = "createwrite"   -> CreateWrite(e.d, e.n, e.c)
        [] e.a = "rewrite"       -> Rewrite(e.d, e.n, e.c)
@@ -99,7 +111,14 @@ Silent ==
                      \* a goroutine whose watcher has been replaced takes the mutex, sees that, and returns
                      \/ (w \notin pend /\ FIX_STALE /\ w # WatcherPtr /\ GorHandle(w) /\ UNCHANGED pend)
 
-TraceNext == FsBegin \/ FsApply \/ FsEnd \/ RecvStep \/ UpdatedStep \/ ScannedStep \/ HandledStep \/ OpStep \/ ConfiguredStep \/ Silent
+Spurious ==
+  /\ LooseEnv /\ l' = l /\ UNCHANGED <<pfs, pend>>
+  /\ \E w \in Wids, d \in D, n \in Names \cup {"."}, o \in {"create", "write", "remove", "rename"} :
+        /\ wstate[w] = "open" /\ infl[w] = NoEv
+        /\ infl' = [infl EXCEPT ![w] = [op |-> o, d |-> d, n |-> n]]
+        /\ UNCHANGED <<exists, gen, files, away, cur, auto, cdirs, wstate, tracked, watches, kq, ub, gor, errs, idx, short, fsops, confs, obs, hist>>
+
+TraceNext == Spurious \/ FsBegin \/ FsApply \/ FsApplyHalf \/ FsApplyRest \/ FsEnd \/ RecvStep \/ UpdatedStep \/ ScannedStep \/ HandledStep \/ OpStep \/ ConfiguredStep \/ Silent
 TraceSpec == TraceInit /\ [][TraceNext]_tvars
 
 \* violated <=> some behaviour consumed the whole trace <=> the trace is accepted
